@@ -630,6 +630,8 @@ func ruleModeTable(c *Ctx, rule string) {
 				}
 			}
 			ob.OKnt("with the mode fixed to " + mode + " the reachable file operations are: " + strings.Join(got, " then "))
+		} else if at := dynamicFilesCall(c, fn, args); at != "" {
+			ob.Und(fmt.Sprintf("in mode %s a function value that returns a writer or reader of package files is called at %s (a table of openers): what it opens cannot be followed", mode, at))
 		} else {
 			ob.Bad(fmt.Sprintf("in mode %s searchReplace performs [%s]; expected [%s]", mode, strings.Join(got, " ; "), strings.Join(expect[mode], " ; ")))
 		}
